@@ -1,4 +1,5 @@
 import ScVerif.C14.CompositeLemmas
+import ScVerif.C14.CompositeDrv
 /-!
 # C14 — a register composed of collection items (openclosepb: GetPositions / UpdatePositions / PullPositions)
 
@@ -218,6 +219,49 @@ theorem C14_composite_unseeded_update_on_streams_fails :
     let s := crun exCC false ⟨exItems, []⟩ [.pull "b" none true]
     (cstep exCC false s (.update "x" [(0, 35)] true)).2 = .val 115 ∧
     ((cstep exCC false s (.update "x" [(0, 35)] true)).1.streams.map (·.out)) = [[(35, "b")]] := by
+  decide
+
+/-! ### The simulator's instance
+
+The driver runs the model with a concrete composition (`simCfg`, CompositeDrv.lean); being an instance of
+`CCfg`, every theorem above applies to it. Its composition is what GetPositions computes from the collection: -/
+
+/-- **C14_composite_sim_listing.** The simulator's composition lists exactly the items of the collection
+(ids below 100, the range of `directionToID`), each once, in strictly increasing id order. -/
+theorem C14_composite_sim_listing (f : Nat → Option Nat) :
+    (∀ k i, (k, i) ∈ listingOf f ↔ k < 100 ∧ f k = some i) ∧
+    ((listingOf f).map (·.1)).Pairwise (· < ·) := by
+  constructor
+  · intro k i
+    unfold listingOf
+    simp only [List.mem_filterMap, List.mem_range, Option.map_eq_some_iff]
+    constructor
+    · rintro ⟨a, ha, b, hb, he⟩
+      cases he
+      exact ⟨ha, hb⟩
+    · rintro ⟨hk, hf⟩
+      exact ⟨k, hk, i, hf, rfl⟩
+  · unfold listingOf
+    rw [List.map_filterMap]
+    refine List.Pairwise.filterMap _ ?_ List.pairwise_lt_range
+    intro a a' hlt b hb b' hb'
+    cases hfa : f a with
+    | none => simp [hfa] at hb
+    | some x =>
+      cases hfa' : f a' with
+      | none => simp [hfa'] at hb'
+      | some y =>
+        simp [hfa] at hb
+        simp [hfa'] at hb'
+        omega
+
+/-- the simulator on the example collection: the listing, a seeded and an updates-only stream, a two-item burst -/
+example :
+    let c := simCfg []
+    let s := crun c true ⟨exItems, []⟩ [.pull "a" none false, .pull "b" none true, .update "x" [(1, 81), (0, 11)] true]
+    c.compose s.items = [(0, 11), (1, 81)] ∧
+    (s.streams.map (·.out)) = [[([(0, 10), (1, 80)], "a"), ([(0, 10), (1, 81)], "a"), ([(0, 11), (1, 81)], "a")],
+                               [([(0, 10), (1, 81)], "b"), ([(0, 11), (1, 81)], "b")]] := by
   decide
 
 end ScVerif.C14
